@@ -23,7 +23,7 @@ pub fn client_to(s: &ObservableTlsClient) -> Value {
            "ciphers": s.cipher_suites, "exts": s.extensions, "sigalgs": s.signature_algorithms, "groups": s.elliptic_curves})
 }
 pub fn output_to(o: &TlsClientOutput) -> Value {
-    json!({"src": format!("{}|{}", o.source.ip, o.source.port), "dst": format!("{}|{}", o.destination.ip, o.destination.port), "sig": client_to(&o.sig)})
+    json!({"src": format!("{}|{}", o.source.ip, o.source.port), "dst": format!("{}|{}", o.destination.ip, o.destination.port), "sig": client_to(&o.sig), "line": o.to_string()})
 }
 
 pub fn packet(frame: &[u8], flows: &mut TtlCache<FlowKey, TlsClientHelloReader>) -> Value {
